@@ -179,13 +179,13 @@ claim('C11', 'Coq proof (doomed tasks are never stored and their dependents neve
       'any continuation; with --keep-going, once every worker has left, exactly the tasks not depending on a failed one are stored; the exit status of a worker not '
       'asked to stop is non-zero iff a task function raised in it; the lock of the failed task is released, or with --keep-failed left marked failed, and a failed '
       'lock stays failed and cannot be acquired until failed locks are cleaned up; the failed marker is the `fail` of the atomic lock specification that C04 proves of every backend (Proofs/ExecLockFacts.v).  ' + _EXEC_TIE + '  Raising functions x keep_going x keep_failed, real cleanup --failed-only; the real command line (`jug execute` subprocesses on a file store and on dict_store:FILE): a task raising any of 10 exception classes (incl. TypeError and subclasses) x keep_going x keep_failed x barrier: exit status non-zero iff the process saw a failure, store, locks; the real-CLI section also covers failures next to a bvalue()/barrier() that can still open (multi-pass reload loop).', _EXEC_NOTE, 'DESIGN.md sec. 3 C11')
-claim('C12', 'Coq proof (a stop request is enabled in every protocol state; a stopped worker never dumps, starts or locks again and can only release its lock; exits hold no lock; restart + completeness) + trace validation of real interrupted runs in coqc',
+claim('C12', 'Coq proof (a stop request is enabled in every protocol state and its own unlock + exit are then enabled whatever the others do; a stopped worker never dumps, starts or locks again and can only release its lock; exits hold no lock; restart + completeness) + trace validation of real interrupted runs in coqc',
       'Theorems (Props/C12.v): a stop request can arrive while choosing, waiting, holding a lock, inside a task function, between function and dump, after the dump, '
       'and changes no result and no lock; from then on the worker stores nothing, starts nothing, locks nothing - all it can do is release the lock it holds; a worker '
       'that has left holds no lock; once nobody holds a lock, later workers complete the computation with the sequential values.  ' + _EXEC_TIE +
       '  SystemExit/KeyboardInterrupt raised at every scheduling point of small programs, the real exit_checks hooks; a stop request arriving inside store.dump(); real SIGTERM / SIGINT (single and repeated) to real `jug execute` processes on file, file_keepalive and dict_store:FILE stores, inside a task function (quick) and in the wait loop (thorough), incl. stop requests delivered to the worker\'s whole process group on file_keepalive (keep-alive monitor dead before the worker unwinds); end state read by a fresh process.',
       _EXEC_NOTE + '  Signal delivery inside lock.get() itself is outside the model (and outside the property).', 'DESIGN.md sec. 3 C12')
-claim('C13', 'Coq proof (a crash changes nothing but the crashed worker; dead workers are silent; results are write-once and sound; stale-lock removal; restart + completeness) + trace validation of real crashed-and-recovered runs in coqc',
+claim('C13', 'Coq proof (a crash - or any number of crashes at once - changes nothing but the crashed workers; cleanup --locks-only is then enabled and restores the premises of the restart theorem; dead workers are silent; results are write-once and sound; stale-lock removal; restart + completeness) + trace validation of real crashed-and-recovered runs in coqc',
       'Theorems (Props/C13.v): a crash at any point leaves every result, every lock and every other worker as they were (residue: the locks it held); the dead worker '
       'never acts again; everything stored stays stored, unchanged and sequential, and is never re-run; stale locks can be removed as soon as every holder is dead, '
       'which frees every lock and touches nothing else; a fresh execute then completes the whole computation.  ' + _EXEC_TIE +
